@@ -99,6 +99,24 @@ theorem loadShortcut_cases (c : Bytes) : loadShortcut c = [] ∨ loadShortcut c 
   · exact .inr rfl
   · exact .inl rfl
 
+theorem litsCovered_refl (t : Re) : litsCovered t t = true := by
+  simp only [litsCovered, List.all_eq_true, List.any_eq_true]
+  intro l hl
+  exact ⟨l, hl, hasSub_refl _⟩
+
+theorem litsCovered_foldCase (t : Re) : litsCovered t t.foldCase = true := by
+  simp only [litsCovered, requiredLits_foldCase, List.all_eq_true, List.any_eq_true]
+  intro l hl
+  exact ⟨l, hl, hasSub_refl _⟩
+
+/-- Literals required by `t` are factors of every lower-cased subject accepted by a covering `c`. -/
+theorem search_covered (t c : Re) (u : Bytes) (hcov : litsCovered t c = true) (h : search c u = true) :
+    ∀ l ∈ requiredLits t, hasSub (toLower u) l = true := by
+  intro l hl
+  simp only [litsCovered, List.all_eq_true, List.any_eq_true] at hcov
+  obtain ⟨l', hl', hsub⟩ := hcov l hl
+  exact hasSub_trans (search_lits c u h l' hl') hsub
+
 /-! ### The selection loop of `findRegexpShortcut` -/
 
 theorem pickLongest_sound (parts : List Bytes) (required : List Bytes) :
